@@ -88,6 +88,17 @@ func (s *state) oblige(kind, label, clause, goal string, pos token.Pos, site str
 		name += "@" + site
 	}
 	o := &oblig{name: name, kind: kind, clause: clause, pos: u.eng.posStr(pos), pc: append([]string(nil), s.pc...), goal: goal, hints: append([]string(nil), s.hints...), deep: deep, path: u.npaths}
+	o.cands = append(o.cands, s.cands...)
+	for k, v := range s.ghost {
+		if strings.HasPrefix(k, "L_") && len(v.S) == 1 {
+			srt := u.m.leaves(v.T)[0].sort
+			o.cands = append(o.cands, binder{v.S[0], srt})
+			if isInteger(v.T) {
+				one := u.arith(token.ADD, v, Val{K: big.NewInt(1)}, nil)
+				o.cands = append(o.cands, binder{one.S[0], srt})
+			}
+		}
+	}
 	s.attachKnown(o)
 	u.obligs = append(u.obligs, o)
 }
@@ -296,6 +307,32 @@ func (s *state) loopHeader(b, pred *ssa.BasicBlock) bool {
 	if li.stmt != nil {
 		pos = li.stmt.Pos()
 	}
+	if !back && spec != nil {
+		for _, g := range spec.ghosts {
+			e.what = "loop ghost " + g.src
+			v := e.eval(g.e)
+			if v.K != nil {
+				v = u.mat(v, types.Typ[types.Uintptr])
+			}
+			s.ghost["L_"+g.label] = v
+		}
+	}
+	if back && spec != nil {
+		lc0 := s.inLoop[b]
+		if lc0 != nil {
+			s.curLoopPre = lc0.pre
+		}
+		for _, g := range spec.steps {
+			e.what = "loop step " + g.src
+			old := s.ghost["L_"+g.label]
+			v := e.eval(g.e)
+			if v.K != nil {
+				v = u.mat(v, old.T)
+			}
+			v.T = old.T
+			s.ghost["L_"+g.label] = v
+		}
+	}
 	if !back {
 		for i, c := range invs {
 			e.what = fmt.Sprintf("%s loop %d invariant %q", funcKey(fn), li.ord, c.src)
@@ -310,9 +347,23 @@ func (s *state) loopHeader(b, pred *ssa.BasicBlock) bool {
 			if !ok {
 				break
 			}
-			s.vals[p] = s.symVal(p.Name()+"_"+p.Comment, p.Type())
+			nv := s.symVal(p.Name()+"_"+p.Comment, p.Type())
+			if len(nv.S) >= 2 && mustBeRaw(p, map[ssa.Value]bool{}) {
+				nv.S[0] = rawRef // every incoming value is an integer-made pointer
+			}
+			s.vals[p] = nv
 		}
 		s.applyHavoc(ms)
+		if spec != nil {
+			for _, g := range spec.ghosts {
+				old := s.ghost["L_"+g.label]
+				nv := s.symVal("ghost_"+g.label, old.T)
+				s.ghost["L_"+g.label] = nv
+				if len(nv.S) == 1 {
+					s.cands = append(s.cands, binder{nv.S[0], u.m.leaves(nv.T)[0].sort})
+				}
+			}
+		}
 		s.curLoopPre = lc.pre
 		for _, c := range invs {
 			e.what = fmt.Sprintf("%s loop %d invariant %q", funcKey(fn), li.ord, c.src)
@@ -323,6 +374,14 @@ func (s *state) loopHeader(b, pred *ssa.BasicBlock) bool {
 			v := u.mat(e.eval(spec.decr.e), nil)
 			lc.measure = []string{v.S[0]}
 			lc.mtypes = []types.Type{v.T}
+		}
+		if spec != nil {
+			for _, uc := range spec.uses {
+				for _, x := range uc.exprs {
+					e.what = "loop use " + uc.src
+					s.useHint(e, x, pos, site)
+				}
+			}
 		}
 		s.curLoopPre = nil
 		s.inLoop[b] = lc
@@ -734,4 +793,44 @@ func (s *state) entryArgs() []Val {
 		args = append(args, s.old.vals[p])
 	}
 	return args
+}
+
+// mustBeRaw: the pointer is certainly manufactured from an integer
+func mustBeRaw(v ssa.Value, seen map[ssa.Value]bool) bool {
+	if seen[v] {
+		return true // cycles through phis: decided by the other edges
+	}
+	seen[v] = true
+	switch d := v.(type) {
+	case *ssa.Convert:
+		if b, ok := d.X.Type().Underlying().(*types.Basic); ok && b.Kind() == types.Uintptr {
+			return true
+		}
+		if _, ok := d.X.Type().Underlying().(*types.Basic); ok && !isInteger(d.X.Type()) { // unsafe.Pointer
+			return mustBeRaw(d.X, seen)
+		}
+		if _, ok := d.X.Type().Underlying().(*types.Pointer); ok {
+			return mustBeRaw(d.X, seen)
+		}
+		return false
+	case *ssa.ChangeType:
+		return mustBeRaw(d.X, seen)
+	case *ssa.FieldAddr:
+		return mustBeRaw(d.X, seen)
+	case *ssa.IndexAddr:
+		return mustBeRaw(d.X, seen)
+	case *ssa.Phi:
+		n := 0
+		for _, e := range d.Edges {
+			if c, ok := e.(*ssa.Const); ok && c.Value == nil {
+				continue // nil initialiser
+			}
+			if !mustBeRaw(e, seen) {
+				return false
+			}
+			n++
+		}
+		return n > 0
+	}
+	return false
 }
